@@ -13,7 +13,9 @@ TABLE = {
             ('OpyVerif.Proofs.C03', 'Opy', r'clip_precedes_hook|sweep_follows_hook'),
             ('OpyVerif.Generated.Skeletons', 'Opy.Gen', r'skel_\w+_good|evalSites_ok|evalSites_nonempty'),
             ('OpyVerif.Proofs.InitCode', 'Opy', None), ('OpyVerif.Generated.Init', 'Opy.Gen', None),
-            ('OpyVerif.Generated.FormulasC18', 'Opy.Gen', r'uniformWrapper_eq|gaussianWrapper_eq')],
+            ('OpyVerif.Generated.FormulasC18', 'Opy.Gen', r'uniformWrapper_eq|gaussianWrapper_eq'),
+            ('OpyVerif.Proofs.TaskRun', 'Opy', r'^(goodBody_pattern|good_pattern|exec_body|task_evals_inBox|task_best_inBox|task_best_evaluated)$'),
+            ('OpyVerif.Proofs.TaskRunCode', 'Opy', r'code_task_evals_in|code_task_best_inBox|clipsInto|code_taskSkeletons_good|code_taskSweeps_plain')],
     'C02': [('OpyVerif.Proofs.C02', 'Opy', None),
             ('OpyVerif.Proofs.SweepCode', 'Opy', None), ('OpyVerif.Proofs.SweepProg', 'Opy', None),
             ('OpyVerif.Generated.Sweeps', 'Opy.Gen', None),
@@ -21,19 +23,25 @@ TABLE = {
             ('OpyVerif.Generated.Accepts', 'Opy.Gen', r'acceptSites_ok|best_sites_present'),
             ('OpyVerif.Proofs.Lemmas.MachineInv', 'Opy', r'inv_(apply|run|init)'),
             ('OpyVerif.Generated.Constants', 'Opy.Gen', r'floatMax_is_sys_max'),
-            ('OpyVerif.Generated.Skeletons', 'Opy.Gen', r'skel_\w+_good')],
+            ('OpyVerif.Generated.Skeletons', 'Opy.Gen', r'skel_\w+_good'),
+            ('OpyVerif.Proofs.TaskRun', 'Opy', r'^(sweepPop_best|sweepPop_best_from|bestInv_execEv|task_best|task_best_evaluated|rule_best|sweepAgent_fit_le)$'),
+            ('OpyVerif.Proofs.TaskRunCode', 'Opy', r'code_task_best$|isRule')],
     'C03': [('OpyVerif.Proofs.C03', 'Opy', None),
             ('OpyVerif.Proofs.C03norm', 'Opy', None), ('OpyVerif.Proofs.C03onlooker', 'Opy', None),
             ('OpyVerif.Proofs.Budget', 'Opy', None), ('OpyVerif.Generated.Budget', 'Opy.Gen', None),
             ('OpyVerif.Proofs.SweepCode', 'Opy', r'code_sweeps_eval_once|code_sweep_owners'), ('OpyVerif.Generated.Sweeps', 'Opy.Gen', None),
             ('OpyVerif.Generated.Skeletons', 'Opy.Gen', r'skel_\w+_good'),
-            ('OpyVerif.Proofs.C18real', 'Opy', r'index_draw_range')],
+            ('OpyVerif.Proofs.C18real', 'Opy', r'index_draw_range'),
+            ('OpyVerif.Proofs.TaskRun', 'Opy', r'^(goodBody_pattern|good_pattern|exec_body|exec_pre|task_logs|task_sweep_calls)$'),
+            ('OpyVerif.Proofs.TaskRunCode', 'Opy', r'code_task_logs|code_task_sweep_calls|code_taskSkeletons_good|code_taskSweeps_plain')],
     'C04': [('OpyVerif.Proofs.C04', 'Opy', r'dump|lookup_appendAttr'),
             ('OpyVerif.Generated.Ops', 'Opy.Gen', r'dumpSkips_spec|dump_guard_known|parseRules_spec'),
             ('OpyVerif.Proofs.C19', 'Opy', r'dump_series'),
             ('OpyVerif.Generated.Constants', 'Opy.Gen', r'historyKeys_eq'),
             ('OpyVerif.Generated.Skeletons', 'Opy.Gen', r'skel_\w+_good'),
-            ('OpyVerif.Proofs.HistCode', 'Opy', r'code_start_time'), ('OpyVerif.Generated.HistProg', 'Opy.Gen', r'startProg_eq')],
+            ('OpyVerif.Proofs.HistCode', 'Opy', r'code_start_time'), ('OpyVerif.Generated.HistProg', 'Opy.Gen', r'startProg_eq'),
+            ('OpyVerif.Proofs.TaskRun', 'Opy', r'^(good_pattern|exec_body|task_logs|task_last_dump)$'),
+            ('OpyVerif.Proofs.TaskRunCode', 'Opy', r'code_task_logs|code_task_last_dump|code_taskSkeletons_good')],
     'C05': [('OpyVerif.Proofs.C05', 'Opy', None), ('OpyVerif.Proofs.C05code', 'Opy', None),
             ('OpyVerif.Model.EffectSites', 'Opy', None), ('OpyVerif.Generated.Effects', 'Opy.Gen', None)],
     'C06': [('OpyVerif.Proofs.C06', 'Opy', None),
